@@ -1471,6 +1471,10 @@ int NifFile::Save(const std::filesystem::path& fileName, const NifSaveOptions& o
 }
 
 int NifFile::Save(std::ostream& file, const NifSaveOptions& options) {
+	// Nothing was loaded or created (or loading failed): the header refers to no block list
+	if (!isValid)
+		return 1;
+
 	if (file) {
 		NiOStream stream(&file, &hdr);
 		FinalizeData();
